@@ -22,5 +22,13 @@ for id in $ids; do
  "check_exit": $rc, "violations_reported": $viol, "detected": $([ $rc -eq 1 ] && echo true || echo false),
  "first_violation": "$first"}
 M
+  /venv/bin/python - "$id" <<'PY'
+import json, sys
+i = sys.argv[1]
+notes = json.load(open('/verif/seeded/NOTES.json'))
+if i in notes:
+    p = '/verif/seeded/%s/detection.json' % i
+    d = json.load(open(p)); d['note'] = notes[i]; json.dump(d, open(p, 'w'), indent=1)
+PY
   echo "$id: exit=$rc violations=$viol ($how)"
 done
